@@ -3,7 +3,7 @@
    stack_spiller.py / _stack_reorder tied by exact-output differential + EVM execution. *)
 From Coq Require Import ZArith List Bool.
 From Verif Require Import Base.PyInt C14S.PyList C14S.StackSpec C14S.StackSpecProofs C14S.GenStackModel C14S.TieStackModel
-  C14S.Spill C14S.SpillProofs C14S.SpillInv C14S.ReorderProofs.
+  C14S.Spill C14S.SpillProofs C14S.SpillInv C14S.ReorderProofs C14S.ReorderFull.
 Import ListNotations.
 Open Scope Z_scope.
 
@@ -84,7 +84,8 @@ Print Assumptions spill_dup_correct.
 (* spill_swap_depth_le16 is the second conjunct of the two theorems above (forallb depth_ok new = true). *)
 
 (* spill_slots_no_alias: live spilled slots are pairwise distinct, below the cursor and never in the free list;
-   preserved by swap, dup, spill_operand and restore_spilled_operand *)
+   preserved by swap, dup, spill_operand, restore_spilled_operand and release_dead_spills (and by _stack_reorder:
+   stack_reorder_full) *)
 Theorem spill_slots_no_alias :
   (forall depth a m s d a' m' s' c, live_inv s d -> valid_depth m depth -> depth < 0 ->
      sp_swap false depth a m s = Ok (a', m', s', c) -> live_inv s' d) /\
@@ -94,10 +95,12 @@ Theorem spill_slots_no_alias :
      spill_operand false depth a m s d = Ok (a', m', s', d') -> live_inv s' d') /\
   (forall op a m s d a' m' s' d', live_inv s d ->
      restore_spilled false op a m s d = Ok (a', m', s', d') -> live_inv s' d') /\
+  (forall live s d, live_inv s d -> live_inv (fst (release_dead live s d)) (snd (release_dead live s d))) /\
   live_inv (mkSp [] 0 0) [].
 Proof.
   split; [exact swap_keeps_live_thm|]. split; [exact dup_keeps_live_thm|].
   split; [exact spill_operand_keeps_live_thm|]. split; [exact restore_keeps_live_thm|].
+  split; [exact release_dead_keeps_live_thm|].
   repeat split; simpl; try constructor; intros; contradiction.
 Qed.
 Print Assumptions spill_slots_no_alias.
@@ -112,7 +115,7 @@ Theorem reorder_place_correct : forall ops a m s,
     place Z.eqb false (zlen ops) ops 0 a m s 0 = Ok (a ++ new, m', s', cost) /\
     skipn (length m' - length ops) m' = ops /\
     length m' = length m /\ (forall x, In x m -> In x m') /\
-    forallb depth_ok new = true /\ sp_inv s' /\
+    forallb depth_ok new = true /\ sp_inv s' /\ (forall d, live_inv s d -> live_inv s' d) /\
     forall mm, exists mm', run new (view m, mm) = Some (view m', mm').
 Proof. exact reorder_place_correct_thm. Qed.
 Print Assumptions reorder_place_correct.
@@ -131,6 +134,19 @@ Theorem stack_reorder_correct : forall ops a m s d,
     forall mm, exists mm', run new (view m, mm) = Some (view m', mm').
 Proof. exact stack_reorder_correct_thm. Qed.
 Print Assumptions stack_reorder_correct.
+
+(* ... and in full generality of target positions: targets may be spilled (restored first; memory must hold them in
+   their slots: mem_ok) and arbitrarily deep (_reduce_depth_via_spill); any stack height.  DFG equivalence = identity. *)
+Theorem stack_reorder_full : forall ops a m s d,
+  ops <> [] -> live_inv s d -> NoDup ops ->
+  (forall x, In x ops -> In x m \/ sp_lookup d x <> None) ->
+  exists new m' s' d' cost,
+    stack_reorder Z.eqb false ops a m s d = Ok (a ++ new, m', s', d', cost) /\
+    skipn (length m' - length ops) m' = ops /\
+    live_inv s' d' /\ forallb depth_ok new = true /\
+    forall mm, mem_ok mm d -> exists mm', run new (view m, mm) = Some (view m', mm').
+Proof. exact stack_reorder_full_thm. Qed.
+Print Assumptions stack_reorder_full.
 
 (* non-vacuity: a 40-deep swap and a 30-deep dup on concrete stacks *)
 Definition big := map Z.of_nat (seq 1 41).
